@@ -15,12 +15,16 @@ from .c08 import C08
 class C14(Prop):
     id = "C14"
     corr_module = "Corr.C14Corr"
+    case_type = "wcase"
     quick_n = 900
     thorough_n = 12000
     shard_size = 300
     rule = ("same event scripts as C08, biased towards timeouts: a timeout from the run() keyword and/or "
             "config.timeouts.command in 70% of the cases, timer expiry placed anywhere relative to process exit, "
-            "reads, EOFs and the decision; warn on/off; exit statuses; pipes held open by a descendant.  "
+            "reads, EOFs and the decision; warn on/off; exit statuses; pipes held open by a descendant; the AGE of "
+            "the command: [\"idle\", n] steps keep it running for n iterations of the wait loop (up to 2500 quick / "
+            "12000 thorough, i.e. 0.1 s .. 8 s / 120 s of input_sleep = 10 ms / 0.5 ms / 2 ms / 50 ms / 250 ms) before it "
+            "exits or the timer fires, and every duration the thread calling run() hands to time.sleep is observed.  "
             "Non-trivial = a timeout is in effect and the script contains a timer expiry or a process exit")
     trusted_base = C08.trusted_base
     assumptions = C08.assumptions + [
@@ -30,7 +34,9 @@ class C14(Prop):
         "thread is alive until then (replaced by a scripted timer in the scripted runs)",
     ]
     not_modelled = C08.not_modelled + [
-        "seconds: 'promptly' is 'without waiting for anything but the readers' EOF' in the model; real latencies "
+        "seconds: 'promptly' is 'without waiting for anything but the readers' EOF' in the model, plus 'the wait "
+        "loop never asks to sleep longer than input_sleep between two looks at the process' (requested durations "
+        "are observed, the scripted runs really sleep at most 0.1-0.5 ms per iteration); real latencies "
         "are measured by the real-child runs with generous margins",
         "processes that ignore signals (SIGKILL cannot be ignored) -- not explored",
     ]
@@ -47,35 +53,44 @@ class C14(Prop):
         # input still queued at the moment the timer fires: a fixed small scope first, then a share of the
         # generated cases (PENDING_P of those that have an input stream and expire while running)
         yield from pending_small_cases()
+        # the age of the command when it exits / is killed: idle iterations of the wait loop x input_sleep
+        yield from wait_family(tier)
         if tier == "quick":
             # a slice of the exhaustive small scope (all of it: thorough tier) + generated cases; the ones
             # that cost real seconds (1 s per expiring join) are capped
             for c in cases.quick_cases(rng, n, focus="timeout"):
-                yield with_pending_input(c, rng)
+                yield with_idle(with_pending_input(c, rng), rng)
             return
         for _ in range(n):
-            yield with_pending_input(cases.gen_case(rng, focus="timeout"), rng)
+            yield with_idle(with_pending_input(cases.gen_case(rng, focus="timeout"), rng), rng)
 
     def enumerate_small(self, tier):
         yield from pending_small_cases()
+        yield from wait_family("quick")
         yield from cases.small_cases(tier)
 
     def run_impl(self, case):
         # C14 only: input events directly after a timer event are queued when the timer fires, and kill() is
-        # the real Local.kill run against a stand-in child whose stdin pipe is the scripted sink
-        o = cases.run_impl(dict(case, pending_at_timer=True, real_kill=True))
+        # the real Local.kill run against a stand-in child whose stdin pipe is the scripted sink; every
+        # duration the thread calling run() hands to time.sleep is recorded (the wait loop's pauses)
+        o = cases.run_impl(dict(case, pending_at_timer=True, real_kill=True, record_sleeps=True))
         return o
 
     def to_coq(self, case, obs):
-        return cases.to_coq(case, obs)
+        sleeps = obs.get("wait_sleeps") or []
+        return "(mkw %s %s %s %s)" % (
+            cases.to_coq(case, obs), n_coq(micro(input_sleep_of(case))), n_coq(int(obs.get("idle_done") or 0)),
+            cases.ct.lst(["(%s, %s)" % (n_coq(micro(d)), n_coq(k)) for d, k in sleeps]))
 
     def nontrivial(self, case, obs):
         return cases.effective_timeout(case) is not None and cases.first_of(case) != "none"
 
     def classify(self, case, obs):
-        return "%s %s%s %s" % ("timeout" if cases.effective_timeout(case) is not None else "no-timeout",
-                               cases.first_of(case), "+input-pending" if pending_units(case) else "",
-                               obs["outcome"] or "HANG")
+        idle = sum(e[1] for e in case["events"] if e[0] == "idle")
+        return "%s %s%s%s %s" % ("timeout" if cases.effective_timeout(case) is not None else "no-timeout",
+                                 cases.first_of(case), "+input-pending" if pending_units(case) else "",
+                                 "" if not idle else "+idle<=100" if idle <= 100 else "+idle>100",
+                                 obs["outcome"] or "HANG")
 
     def finding_of(self, case, obs):
         if cases.effective_timeout(case) is None or case.get("start_error"):
@@ -97,10 +112,19 @@ class C14(Prop):
         if not self._budget.ok():
             return
         yield from cases.shrink_candidates(case)
+        evs = case["events"]
+        for i, e in enumerate(evs):
+            if e[0] == "idle" and e[1] > 1:
+                for m in sorted({e[1] // 2, (3 * e[1]) // 4, e[1] - 10, e[1] - 1}):
+                    if 0 < m < e[1]:
+                        yield dict(case, events=evs[:i] + [["idle", m]] + evs[i + 1:])
 
     def mutate(self, case, rng):
         for _ in range(40):
             yield with_pending_input(cases.gen_case(rng, focus="timeout"), rng)
+        # the same case at other ages / with another input_sleep
+        for _ in range(12):
+            yield with_idle({k: v for k, v in case.items() if k not in ("input_sleep", "pace")}, rng, p=1.0)
 
     def extra_checks(self, tier, seed):
         if self.phases:
@@ -112,6 +136,9 @@ class C14(Prop):
             self.phases.mark("end")
             res.append(self.phases.entry())
         return res
+
+
+LATE = 1.2      # s: a timed-out command (nothing queued on stdin) is reported within this after the kill
 
 
 def real_timeouts(tier, budget):
@@ -155,15 +182,29 @@ def real_timeouts(tier, budget):
         fails.append({"case": case, "what": "outcome %s after %.1fs" % (r["outcome"], r["elapsed"])})
     elif r["elapsed"] - 0.5 > 6.0:
         fails.append({"case": case, "what": "a SIGTERM-ignoring command was reported only after %.1fs" % r["elapsed"]})
-    # detection latency does not grow with the age of the command: timeout 6 s, reported well before 8 s
-    evals += 1
-    r = rc.run_real("echo started; sleep 30", hide=True, in_stream=False, timeout=6, bound=25)
-    case = {"cmd": "echo started; sleep 30", "timeout": 6}
-    if r["outcome"] != "CommandTimedOut":
-        fails.append({"case": case, "what": "outcome %s after %.1fs" % (r["outcome"], r["elapsed"])})
-    elif r["elapsed"] - 6.0 > 1.8:
-        fails.append({"case": case, "what": "timeout of 6 s reported after %.2fs (exit noticed %.2fs late)"
-                                            % (r["elapsed"], r["elapsed"] - 6.0)})
+    # detection latency does not grow with the age of the command: timeout 3.9 s (thorough: 6 s and 2.9 s too),
+    # reported within LATE s of the kill (the unchanged code: a few hundredths; no stdin is mirrored, so
+    # nothing of F-C14e is involved)
+    from invoke.runners import Local
+    for tmo in ((3.9,) if not strict else (3.9, 6.0, 2.9)):
+        evals += 1
+        kills = []
+
+        class Rec(Local):
+            def kill(self, kills=kills):
+                kills.append(time.time())
+                super().kill()
+        t0 = time.time()
+        r = rc.run_real("echo started; exec sleep 30", hide=True, in_stream=False, timeout=tmo, bound=25, runner_cls=Rec)
+        case = {"cmd": "echo started; exec sleep 30", "timeout": tmo, "in_stream": False, "hide": True}
+        if r["outcome"] != "CommandTimedOut" or len(kills) != 1:
+            fails.append({"case": case, "what": "outcome %s after %.1fs, kill() ran %d times"
+                                                % (r["outcome"], r["elapsed"], len(kills))})
+        elif t0 + r["elapsed"] - kills[0] > LATE:
+            fails.append({"case": case, "what": "timeout of %s s: the command was killed %.2f s after the start, but "
+                                                "CommandTimedOut was raised only %.2f s after the kill (bound %.1f s, "
+                                                "whatever the age of the command)"
+                                                % (tmo, kills[0] - t0, t0 + r["elapsed"] - kills[0], LATE)})
     # a timely command under a fractional timeout is left alone
     evals += 1
     r = rc.run_real("sleep 0.2; echo done", hide=True, in_stream=False, timeout=0.9, bound=25)
@@ -218,6 +259,85 @@ def real_timeouts(tier, budget):
 
 
 PENDING_P = 0.6
+
+# ---------------------------------------------------------------------------
+# the age of the command: idle iterations of the wait loop
+# ---------------------------------------------------------------------------
+SLEEPS = (0.01, 0.0005, 0.002, 0.05, 0.25)          # input_sleep: Runner's default, the scripted runner's, others
+AGES = (0.1, 0.99, 1.0, 1.1, 1.5, 3.0, 8.0, 30.0, 120.0)  # seconds (of requested sleep) the command has been running
+AGES_QUICK = (0.1, 1.0, 1.1, 3.0, 8.0)
+PACE = 0.0001                                       # s really slept per iteration in the idle family
+IDLE_P = 0.05
+
+
+def input_sleep_of(case):
+    return case["input_sleep"] if case.get("input_sleep") is not None else rc.runner_class().input_sleep
+
+
+def micro(d):
+    """seconds -> microseconds; anything that is not a sane duration -> 10**12"""
+    try:
+        v = int(round(float(d) * 1e6))
+    except (TypeError, ValueError, OverflowError):
+        return 10 ** 12
+    return v if 0 <= v <= 10 ** 12 else 10 ** 12
+
+
+def n_coq(x):
+    return "%d%%N" % x
+
+
+def idle_case(s, n, end, pty=False, warn=False, ins=None, async_=False, split=False, cfg=False, pending=()):
+    eofs = [["out", []]] + ([] if pty else [["err", []]])
+    idle = [["idle", n]] if not split or n < 2 else [["idle", n // 2], ["out", [66]], ["idle", n - n // 2]]
+    c = {"events": [["out", [65]]] + idle + [list(end)] + [list(u) for u in pending] + eofs, "pty": pty, "in": ins,
+         "warn": warn, "async": async_, "start_error": None, "never_eof": [], "input_sleep": s, "pace": PACE}
+    if cfg:
+        c["config_timeout"] = 2
+    else:
+        c["timeout"] = 5
+    return c
+
+
+def wait_family(tier):
+    """the command runs idle for n = age / input_sleep iterations of the wait loop, then exits by itself or is
+    killed by the timer; quick: every (input_sleep, age in AGES_QUICK) with n <= 2500, thorough: every age with
+    n <= 12000 and the small ones also with a pty / warn / asynchronous / an input stream (units pending at the expiry) / a read in
+    the middle / a configured timeout"""
+    cap = 2500 if tier == "quick" else 12000
+    for s in SLEEPS:
+        seen = set()
+        for a in (AGES_QUICK if tier == "quick" else AGES):
+            n = int(round(a / s))
+            if n < 1 or n > cap or n in seen:
+                continue
+            seen.add(n)
+            yield idle_case(s, n, ["timer"], warn=(n % 2 == 0))
+            if n <= (300 if tier == "quick" else 800):
+                yield idle_case(s, n, ["exit", 3 if n % 2 else 0], split=(n % 3 == 0))
+            if tier != "quick" and n <= 800:
+                yield idle_case(s, n, ["timer"], pty=True)
+                yield idle_case(s, n, ["timer"], async_=True, cfg=True)
+                yield idle_case(s, n, ["timer"], ins={"mode": "text"}, pending=(["in", "a"], ["in", "b"]), split=True)
+                yield idle_case(s, n, ["exit", 0], pty=True, ins={"mode": "text"})
+                yield idle_case(s, n, ["exit", 1], warn=True, async_=True)
+        # one step past the cap's neighbours: ages at which NOTHING special should happen
+        for n in ((1, 101) if tier == "quick" else (1, 2, 3, 101, 128, 257, 1001)):
+            if n not in seen:
+                yield idle_case(s, n, ["timer"])
+
+
+def with_idle(case, rng, p=IDLE_P):
+    """with probability p a generated case gets another input_sleep and an idle stretch of 1..400 iterations
+    somewhere before the process ends (or anywhere, if it never does)"""
+    if case.get("start_error") or rng.random() >= p:
+        return case
+    evs = case["events"]
+    first = next((i for i, e in enumerate(evs) if e[0] in ("exit", "exit_kbd", "timer")), len(evs))
+    pos = rng.randrange(first + 1)
+    n = rng.choice([1, 3, 30, 101, 130, 260])
+    return dict(case, events=evs[:pos] + [["idle", n]] + evs[pos:], input_sleep=rng.choice(SLEEPS), pace=PACE)
+
 
 
 def pending_units(case):
